@@ -69,12 +69,6 @@ func redeliveryPart(res *Result, bound int) {
 				}
 				f := faultOps(x)
 				var bad []string
-				for _, cl := range a.Log[logAt:] {
-					if site, ok := leaked[cl.Arg]; ok && cl.Op == "DB.Lock" && cl.Req != firstReq {
-						bad = append(bad, fmt.Sprintf("no-return-after-leaked-lock@%s|the first delivery returned still holding the lock of %s (taken in %s); the redelivery asks for that lock and never completes", NormSite(site), collClass(cl.Arg), NormSite(site)))
-						break
-					}
-				}
 				for box, items := range a.Inboxes {
 					c := 0
 					for _, it := range items {
@@ -112,6 +106,26 @@ func redeliveryPart(res *Result, bound int) {
 				}
 				if fw > 1 {
 					bad = append(bad, fmt.Sprintf("forwarded-twice|%d forwards", fw))
+				}
+				// ... and then ANOTHER activity of the same shape (its own id): neither it nor the redeliveries may
+				// ask for a lock the first delivery still holds
+				if len(leaked) > 0 {
+					other := *sc
+					ob := M{}
+					for k, v := range sc.Body {
+						ob[k] = v
+					}
+					ob["id"] = id + "-another"
+					other.Body = ob
+					if o3 := other.On(a, nil); o3.Panic != nil {
+						return true
+					}
+					for _, cl := range a.Log[logAt:] {
+						if site, ok := leaked[cl.Arg]; ok && cl.Op == "DB.Lock" && cl.Req != firstReq {
+							bad = append(bad, fmt.Sprintf("no-return-after-leaked-lock@%s|the first delivery returned still holding the lock of %s (taken in %s); a later request asks for that lock and never completes", NormSite(site), collClass(cl.Arg), NormSite(site)))
+							break
+						}
+					}
 				}
 				for _, b := range bad {
 					kind := strings.SplitN(b, "|", 2)[0]
